@@ -5,6 +5,8 @@ import (
 	"context"
 	"fmt"
 	"math/rand"
+	"runtime"
+	"strings"
 	"sync"
 	"sync/atomic"
 	"testing"
@@ -60,6 +62,7 @@ func TestC16(t *testing.T) {
 	}
 	r.Exhaustive(true)
 	r.Extra("program_length", L)
+	sessionCacheSchedules(r)
 	stressC16(t, r)
 	r.Finish(t)
 }
@@ -77,6 +80,22 @@ func stressC16(t *testing.T, r *ev.Run) {
 		cfg.SessCache, cfg.SessCap, cfg.SessPolicy, cfg.SessDur = true, 2, pol, time.Duration(1+rep%2)*time.Millisecond
 		mon := sessprog.NewTdMon()
 		mon.Install()
+		// seeded yields at every hook point (hand-placed and generated before-lock / after-unlock points) widen the
+		// windows between looking a session up, pinning it and using it
+		var yields atomic.Int64
+		mon.Yield = func(point string) {
+			if strings.HasSuffix(point, ".locked") {
+				return
+			}
+			n := yields.Add(1)
+			x := (uint64(n)*0x9E3779B97F4A7C15 + uint64(rep)*7919) >> 59
+			switch {
+			case x < 4:
+				runtime.Gosched()
+			case x < 7:
+				time.Sleep(time.Duration(20+n%200) * time.Microsecond)
+			}
+		}
 		f := w.Factory(cfg, "svc", "prod")
 		ctx := context.Background()
 		var wg sync.WaitGroup
@@ -143,6 +162,7 @@ func stressC16(t *testing.T, r *ev.Run) {
 		r.Count("stress_ops", int64(opsN))
 		r.Count("stress_sessions_handed_out", int64(nHanded))
 		r.Count("stress_teardowns", int64(len(mon.Closes)))
+		r.Count("stress_yield_points", yields.Load())
 		if n := failures.Load(); n > 0 {
 			fe, _ := firstErr.Load().(string)
 			r.Violation("c16-stress-held-session-unusable", fmt.Sprintf("stress (policy %q, seed %d): %d operation(s) on held sessions failed; first: %s", pol, seed, n, fe), nil)
